@@ -105,6 +105,10 @@ pub struct Case {
     /// run a fault-free twin and require identical trajectories (resume equivalence, C17)
     #[serde(default)]
     pub twin: bool,
+    /// consists: before every top-level interval change the middle unit is given an interval of its own; the
+    /// change that follows must still reach every nested object (also when it re-sets the value in force)
+    #[serde(default)]
+    pub nested_drift: bool,
 }
 
 // ------------------------------------------------------------------------------------------------
@@ -510,6 +514,20 @@ pub fn generate(rng: &mut Rng, focus: &str, thorough: bool) -> Case {
         };
         ops.push(Op::Tick { dt, demand, engine_on });
     }
+    // interval changes that re-set the value already in force, with a unit drifting in between (C19)
+    let mut ops = ops;
+    let nested_drift = as_consist && ops.iter().any(|o| matches!(o, Op::SetSaveInterval(_))) && rng.chance(0.4);
+    if nested_drift {
+        if let Some(p) = ops.iter().position(|o| matches!(o, Op::SetSaveInterval(_))) {
+            if let Op::SetSaveInterval(iv) = ops[p].clone() {
+                let at = (p + 1 + rng.usize(0, 12)).min(ops.len());
+                ops.insert(at, Op::SetSaveInterval(iv));
+            }
+        }
+        if rng.chance(0.4) {
+            ops.insert(rng.usize(0, 3).min(ops.len()), Op::SetSaveInterval(save_interval));
+        }
+    }
     let has_crash = ops.iter().any(|o| matches!(o, Op::Crash { .. }));
     Case {
         locos,
@@ -520,6 +538,7 @@ pub fn generate(rng: &mut Rng, focus: &str, thorough: bool) -> Case {
         hash_seed: rng.next(),
         shipped_walk: !has_crash && rng.chance(0.5),
         twin: focus == "C17",
+        nested_drift,
     }
 }
 
@@ -1179,6 +1198,16 @@ fn run_ops(case: &Case, ctx: &mut Ctx, with_faults: bool, monitors: bool) -> Res
         ctx.event = k;
         match op {
             Op::SetSaveInterval(iv) => {
+                if case.nested_drift {
+                    if let Sys::Con(c) = &mut sys {
+                        let own = if *iv == Some(9) { None } else { Some(9) };
+                        let n = c.loco_vec.len();
+                        if let Some(l) = c.loco_vec.get_mut(n / 2) {
+                            l.set_save_interval(own);
+                            ctx.hit("fault.interval.nested_drift_before_change");
+                        }
+                    }
+                }
                 sys.set_save_interval(*iv);
                 align.interval = *iv;
                 ctx.hit("fault.interval.change");
